@@ -483,6 +483,7 @@ type tr struct {
 	stopped   bool
 	assertsSeen map[string]bool
 	callOrd   map[ssa.Instruction]int
+	callAlias map[ssa.Instruction]map[string]int // helper call -> callee names called inside the (inlined) helper -> ordinal
 	storeOrd  map[ssa.Instruction]int // ordinal (source order) of a store among the stores to a field of the same name
 	ghostSetSeen map[string]bool
 	predDefs  map[string]string
@@ -2083,10 +2084,82 @@ func (t *tr) computeCallOrdinals() {
 			by[t.calleeName(cc)] = append(by[t.calleeName(cc)], ins)
 		}
 	}
-	for _, l := range by {
-		sort.SliceStable(l, func(i, j int) bool { return l[i].Pos() < l[j].Pos() })
-		for i, ins := range l {
-			t.callOrd[ins] = i + 1
+	// A call of a helper without contract is translated by inlining its body: the calls inside that body count as calls of
+	// this function at the helper call's position ("alias" occurrences), so that a lemma attached to `callee#n` still binds
+	// after the callee's call was moved into a helper (evaluated just before the helper call).
+	t.callAlias = map[ssa.Instruction]map[string]int{}
+	alias := map[string][]ssa.Instruction{}
+	if t.parent == nil {
+		var inner func(fn *ssa.Function, depth int, out map[string]bool)
+		inner = func(fn *ssa.Function, depth int, out map[string]bool) {
+			if fn == nil || depth > 2 || len(fn.Blocks) == 0 {
+				return
+			}
+			for _, b := range fn.Blocks {
+				for _, ins := range b.Instrs {
+					c, ok := ins.(ssa.CallInstruction)
+					if !ok {
+						continue
+					}
+					cc := c.Common()
+					if _, isB := cc.Value.(*ssa.Builtin); isB {
+						continue
+					}
+					out[t.calleeName(cc)] = true
+					if sc := cc.StaticCallee(); sc != nil && t.contractFor(cc) == nil && sc.Pkg != nil && strings.HasPrefix(sc.Pkg.Pkg.Path(), hcPath) {
+						inner(sc, depth+1, out)
+					}
+				}
+			}
+		}
+		for _, b := range t.fn.Blocks {
+			for _, ins := range b.Instrs {
+				c, ok := ins.(ssa.CallInstruction)
+				if !ok {
+					continue
+				}
+				cc := c.Common()
+				sc := cc.StaticCallee()
+				if sc == nil || sc.Pkg == nil || !strings.HasPrefix(sc.Pkg.Pkg.Path(), hcPath) || t.contractFor(cc) != nil {
+					continue
+				}
+				names := map[string]bool{}
+				inner(sc, 1, names)
+				for n := range names {
+					alias[n] = append(alias[n], ins)
+				}
+			}
+		}
+	}
+	names := map[string]bool{}
+	for n := range by {
+		names[n] = true
+	}
+	for n := range alias {
+		names[n] = true
+	}
+	for n := range names {
+		type occ struct {
+			ins   ssa.Instruction
+			alias bool
+		}
+		var l []occ
+		for _, ins := range by[n] {
+			l = append(l, occ{ins, false})
+		}
+		for _, ins := range alias[n] {
+			l = append(l, occ{ins, true})
+		}
+		sort.SliceStable(l, func(i, j int) bool { return l[i].ins.Pos() < l[j].ins.Pos() })
+		for i, o := range l {
+			if o.alias {
+				if t.callAlias[o.ins] == nil {
+					t.callAlias[o.ins] = map[string]int{}
+				}
+				t.callAlias[o.ins][n] = i + 1
+			} else {
+				t.callOrd[o.ins] = i + 1
+			}
 		}
 	}
 	// stores to struct fields, numbered per field name in source order (attachment points of ghostset clauses)
